@@ -78,6 +78,19 @@ CLAIMS = {
                 'Image equality as a set statement is not decided.',
         'note': 'trusted: clang 14 AST, exporter',
     },
+    'C17': {
+        'text': 'Decides the disciplines canonicity and pointwise application rest on, on every instantiation of the package: nodes are created only through the unique tables, no internal node with equal children is spawned '
+                '(two frozen, reasoned exceptions), every apply clears its address-keyed memo table before descending, the recursion pairs low with low and high with high and builds (low result, high result), '
+                'branching decisions read the operand they are about, memo keys are exactly the node parameters and results are stored before return, and the 2-/3-ary case classification branches operand k iff '
+                'internal with variable >= the others. Pointwise correctness of Project/Rename/ExtendWith/GetMtbddForPrefix is not decided.',
+        'note': 'trusted: clang 14 AST/CFG, exporter; template bodies never instantiated by the build (e.g. projectNode) are not analysed',
+    },
+    'C18': {
+        'text': 'Decides the reference-counting typestate of MTBDD nodes (28 obligations): owned roots at every private-constructor call site, increment in copy/value constructors, operator= (self test, release before '
+                're-seat, increment after), destructor releases, spawnInternal references both children and enters the table, disposeOf* erase the table entry and release each child exactly once before deletion, '
+                'disposal only when the decrement returned 0, and who-may-call for the decrement/delete primitives. Collection of orphan intermediate nodes is not decided.',
+        'note': 'trusted: clang 14 AST/CFG, exporter',
+    },
     'C19': {
         'text': 'Decides only the mechanism named in the anchors: numbering enters through translators, so no state is translated twice or not at all (KIND), the simulation result is indexed by the numbering map (SIMMAP), '
                 'and inclusion operands are renumbered by one shared counter with the map cleared in between (DISPATCH/sanitiser). The metamorphic laws themselves are not decided.',
